@@ -17,6 +17,7 @@ based on the parameter order listed", i.e. by a1): a curve may carry an explicit
 design-code table (a1 rounded to 3..5 significant digits, so 10**loga1 != a1), an unrelated loga1, or the exact power.  Such a curve
 goes through every stream like any other; the harness (and the model) know it by log10(a1).
 Every evaluation is wrapped: an exception raised by the implementation is a failing clause.
+Audit round 8: stream `long` (c05_long.py) = the array clauses on 999 ... 131073 stress ranges (size-conditioned code paths).
 """
 import math
 
@@ -33,7 +34,11 @@ RULE = ("seeded S-N curves (single / bilinear incl. m2 == m1 and m2 < m1, with /
         "log-uniform in [0.5, 2000], scaled by 2^±(30..200) while the capacity stays finite, points at sswitch/tcorr*(1±2^-k), "
         "integers around the knee x thickness None / <= t_ref / == t_ref(1±2^-52) / > t_ref / 1e-6 t_ref / 1e4 t_ref, as float, int, "
         "numpy scalar, 0-d array, positional or keyword; stress containers ndarray / list / tuple / view / reversed / 2-D / "
-        "read-only / length 0, 1 / 0-d / int64 / int32 / uint16 / float32; histories of 14 calls on one object; "
+        "read-only / length 0, 1 / 0-d / int64 / int32 / uint16 / float32; histories of 14 calls on one object; stream `sn.long`: "
+        "arrays of 999, 1000, 1001, 1023, 1024, 1025, 4095, 4096, 4097, 9999, 10000, 10001, 65535 ... 131073 stress ranges (sorted "
+        "or random around the transition stress; exact tie / +-1 ulp / extremes / duplicates in the first and last elements, at "
+        "multiples of 1000 / 1024 / 4096 / 10000 / 65536 and in pairs spanning them), every element against an independent "
+        "capacity, special positions against the scalar evaluation, slices / permutation against the full result; "
         "non-trivial = bilinear curve or thickness above reference; distinct by (curve, s, t) or by the written-out case")
 REL = 1e-9
 
@@ -799,6 +804,9 @@ def run(chk):
                     case, res = shrink_history(case, res)
                 for oracle, e, o in res:
                     chk.fail(oracle, case, e, o)
+    # ---- audit round 8: LONG stress-range arrays (c05_long.py) --------------------------------------------------------------
+    from . import c05_long
+    c05_long.run_long(chk, drv, core.load_corpus("C05"))
 
 
 def switch_clauses(c):
@@ -915,8 +923,9 @@ def replay(rp):
     inp = rp["input"]
     kind = inp.get("kind")
     bad = 0
-    if kind in ("spell", "history", "ctor"):
-        res = dict(spell=run_spell, history=run_history, ctor=run_ctor)[kind](inp)
+    if kind in ("spell", "history", "ctor", "long"):
+        from . import c05_long
+        res = dict(spell=run_spell, history=run_history, ctor=run_ctor, long=c05_long.eval_long)[kind](inp)
         for oracle, e, o in res:
             print("FAILS:", oracle, "\n   expected", e, "\n   observed", o)
         bad = len(res)
